@@ -26,6 +26,7 @@ import os
 import random
 import re
 import shutil
+import signal
 import sys
 import tempfile
 import time
@@ -613,6 +614,14 @@ def _span(src, fn):
 _SEQ = [0]
 
 
+class _Hang(BaseException):
+  pass
+
+
+def _on_alarm(signum, frame):
+  raise _Hang()
+
+
 def run_case(case):
   """Load the module, judge it; returns (failure-or-None, stats)."""
   _SEQ[0] += 1
@@ -622,9 +631,13 @@ def run_case(case):
     mod = harness.load_source(case['src'], name)
   except SyntaxError as e:
     return dict(kind='generator-bug', what='SyntaxError: %s' % e), stats
+  signal.signal(signal.SIGALRM, _on_alarm)
+  signal.alarm(20)
   try:
     judge(case, mod, stats)
     return None, stats
+  except _Hang:
+    return dict(kind='hang', what='the program did not finish within 20 s'), stats
   except Fail as f:
     d = dict(kind=f.kind, what=f.what)
     d.update(f.extra)
@@ -632,6 +645,7 @@ def run_case(case):
   except Exception as e:      # pylint:disable=broad-except
     return dict(kind='harness-error', what='%s: %s' % (type(e).__name__, str(e)[:300]), tb=traceback.format_exc()[-600:]), stats
   finally:
+    signal.alarm(0)
     harness.unload(name)
 
 
@@ -666,7 +680,7 @@ def minimise(case, kind, deadline):
     i = len(lines) - 1
     while i >= start and time.time() < deadline:
       s = lines[i].strip()
-      if not s or s.startswith('def f(') or case['target'] in markers(lines[i]):
+      if not s or s.startswith('def f(') or s.startswith('fuel_') or case['target'] in markers(lines[i]):
         i -= 1
         continue
       cand = lines[:i] + lines[_block_end(lines, i):]
